@@ -9,8 +9,7 @@ pub const TABLES: &[&[(&str, fn())]] = &[c12::TABLE, c13::TABLE, c15::TABLE, c16
 
 /// One-byte string over {a, b}: fresh buffer, concrete pointer and length, symbolic content.
 pub fn s1() -> &'static str {
-    let b: u8 = nd::any();
-    nd::assume(b == b'a' || b == b'b');
+    let b: u8 = if nd::any::<bool>() { b'a' } else { b'b' };
     let buf: &'static [u8; 1] = Box::leak(Box::new([b]));
     unsafe { std::str::from_utf8_unchecked(&buf[..]) }
 }
@@ -18,9 +17,7 @@ pub fn s1() -> &'static str {
 pub fn s02() -> &'static str {
     let buf: &'static mut [u8; 2] = Box::leak(Box::new([0u8; 2]));
     for i in 0..2 {
-        let b: u8 = nd::any();
-        nd::assume(b == b'a' || b == b'b' || b == b'.');
-        buf[i] = b;
+        buf[i] = [b'a', b'b', b'.'][nd::below(3)];
     }
     let l = nd::below(3);
     unsafe { std::str::from_utf8_unchecked(&buf[..l]) }
